@@ -232,6 +232,16 @@ def driver_op(node, op):
 LINE_FUNCS = {}
 
 
+def all_dispatcher_functions():
+    """every function defined in frappy.protocol.dispatcher (methods and module level) + the update funnel: helper
+    methods that a change introduces are scheduling-point sources too"""
+    import inspect
+    funcs = [f for _n, f in inspect.getmembers(_dispatcher.Dispatcher, inspect.isfunction)
+             if f.__code__.co_filename == _dispatcher.__file__]
+    funcs += [f for _n, f in inspect.getmembers(_dispatcher, inspect.isfunction) if f.__code__.co_filename == _dispatcher.__file__]
+    return funcs + [_modulebase.Module.announceUpdate]
+
+
 def line_functions(level):
     """the mechanism functions whose every source line becomes a scheduling point at granularity 'line'"""
     D = _dispatcher.Dispatcher
